@@ -67,6 +67,7 @@ def main():
     lib = ctypes.CDLL(req['so'])
     stypes = {n: make_struct(n, f, req['structs']) for n, f in req['structs'].items()}
     out = []
+    afters = {}
     for idx, call in enumerate(req['calls']):
         sys.stdout.write('@@ %d\n' % idx)
         sys.stdout.flush()
@@ -83,6 +84,11 @@ def main():
         cargs, keep, argt = [], {}, []
         for pname, ctype in call['params']:
             v = call['args'][pname]
+            if isinstance(v, dict) and 'ref' in v:
+                # contents left in a buffer by an earlier call of this batch, in a new exact-size block
+                src = afters[v['ref'][0]][v['ref'][1]]
+                v = dict(src)
+                v['off'] = 0
             t = ctype.replace('const ', '').strip()
             if t.endswith('**'):
                 if v is None:
@@ -149,6 +155,7 @@ def main():
                     libc.free(b.addr)
                 libc.free(k[2].addr)
         out.append(rec)
+        afters[call.get('id', idx)] = rec['args_after']
         sys.stdout.write('## ' + json.dumps(rec) + '\n')
         sys.stdout.flush()
 
